@@ -23,3 +23,5 @@ def run(prog, rep):
     r_safe.run_vecinit(prog, rep)
     r_safe.run_rawbuf(prog, rep)
     r_safe.run_colidx(prog, rep)
+    from ..rules import r_null as _rn
+    _rn.run_cstr_args(prog, rep)
